@@ -152,4 +152,55 @@ def contour_levels(inp):
         return {"got": "contour confidence levels not built with n_dimensions=2", "expected": "ConfidenceLevel(n_dimensions=2, sigma=...)", "witness_class": "ndim"}
 
 
+def gen_contour_geometry(tier, seed):
+    for backend in ("scipy", "iminuit"):
+        for sigma in (1.0, 2.0, 3.0) if tier == "thorough" else (1.0, 2.0):
+            yield {"backend": backend, "sigma": sigma}
+
+
+@R.oracle("s_sigma_contour_is_the_level_s_squared", gen_contour_geometry, obligation="contour")
+def contour_geometry(inp):
+    """the curve delivered for an s-sigma contour of a straight-line fit (exactly quadratic cost) is the level 'cost rise = s^2' - the two-dimensional region of
+    probability 1 - exp(-s^2/2) - and it is delivered completely: it extends to +- s standard deviations along each parameter"""
+    XYFit = imp("kafe2").XYFit
+    x = np.array([0.0, 1.0, 2.0, 3.0, 4.0, 5.0]); y = np.array([0.9, 3.2, 4.8, 7.1, 9.2, 10.8])
+    fit = XYFit([x, y], minimizer=inp["backend"]); fit.add_error("y", 0.4)
+    fit.do_fit()
+    pv, C, s_ = np.asarray(fit.parameter_values, float), np.asarray(fit.parameter_cov_mat, float), inp["sigma"]
+    names = list(fit.parameter_names)
+    c = fit._fitter.contour(names[0], names[1], sigma=s_)
+    Ci = np.linalg.inv(C)
+    half = s_ * np.sqrt(np.diag(C))
+    tag = f"{inp['backend']}:sigma-{s_:g}"
+    if c is None:
+        return {"got": None, "expected": "a contour", "witness_class": tag + ":missing"}
+    if c.xy_points is not None:
+        pts = np.asarray(c.xy_points, float)
+        pts = pts.T if pts.shape[0] == 2 and pts.shape[1] != 2 else pts
+        d = pts - pv
+        rise = np.einsum("ki,ij,kj->k", d, Ci, d)
+        if not np.allclose(rise, s_ ** 2, rtol=8e-2):
+            return {"got": [float(rise.min()), float(rise.max())], "expected": s_ ** 2, "witness_class": tag + ":level"}
+        ext = np.max(np.abs(d), axis=0)
+        if np.any(ext < 0.9 * half):
+            return {"got": ext.tolist(), "expected": half.tolist(), "witness_class": tag + ":truncated"}
+        return None
+    gx, gy, gz = np.asarray(c.grid_x, float), np.asarray(c.grid_y, float), np.asarray(c.grid_z, float)
+    for ax_, g_ in ((0, gx), (1, gy)):
+        if g_.min() > pv[ax_] - half[ax_] or g_.max() < pv[ax_] + half[ax_]:
+            return {"got": [float(g_.min()), float(g_.max())], "expected": [float(pv[ax_] - half[ax_]), float(pv[ax_] + half[ax_])], "witness_class": tag + ":truncated"}
+    Xg, Yg = np.meshgrid(gx, gy)
+    d_ = np.stack([Xg - pv[0], Yg - pv[1]], axis=-1)
+    z_exact = np.sqrt(np.einsum("...i,ij,...j->...", d_, Ci, d_))
+    best = None
+    for Zx in (gz, gz.T):
+        if Zx.shape != z_exact.shape:
+            continue
+        near_ = np.abs(z_exact - s_) < 0.12
+        err_ = 9.0 if np.sum(near_) < 8 else float(np.max(np.abs(Zx[near_] - z_exact[near_])))
+        best = err_ if best is None else min(best, err_)
+    if best is None or best > 0.1:
+        return {"got": best, "expected": "grid cells on the drawn level hold sqrt(cost rise) = s", "witness_class": tag + ":level"}
+
+
 sys.exit(R.main())
